@@ -265,6 +265,15 @@ class TracerScenario:
                 if key not in st.env:
                     st.env[key] = self.ri.interp.eval(extra[attr], st)
                 return st.env[key]
+            if attr not in self.KNOWN_ATTRS and any(attr in c.attrs for c in self.repo.mro(self.cls)):
+                saved_sc = self.ri.self_class
+                self.ri.self_class = self.cls
+                try:
+                    v_c = RepoInterp.on_attr(self.ri, obj, attr, node, st)  # a class-level constant (a dispatch table)
+                finally:
+                    self.ri.self_class = saved_sc
+                if v_c is not None:
+                    return v_c
             return S("self." + attr)
         return RepoInterp.on_attr(self.ri, obj, attr, node, st)
 
@@ -293,6 +302,11 @@ class TracerScenario:
             if meth in ("setdefault", "update", "__setitem__"):
                 st.effects.append(("setitem", "self.traces", args[0] if args else K(None), args[1] if len(args) > 1 else U("?")))
                 return U(meth)
+        if isinstance(fval, S) and fval.name == "self.cache" and meth == "get" and args and self.cache_hit is not None:
+            # the scenario says whether the frame's key is cached: a hit answers with the cached function, a miss with the default
+            if self.cache_hit:
+                return self.func_value if self.func_value is not None else U("cache")
+            return args[1] if len(args) > 1 else K(None)
         if isinstance(fval, S) and fval.name == "self.cache" and meth in ("setdefault", "update", "__setitem__"):
             st.effects.append(("setitem", "self.cache", args[0] if args else K(None), U("?")))
             return U(meth)
